@@ -848,4 +848,169 @@ example : exONeg.gq exSt0.pts = some (-91) ∧
     (optimize exCfg exONeg exConv 2 exSched exSt0).raised = none ∧
     (optimize exCfg exONeg exConv 2 exSched exSt0).st.pts = [0, 2, 12] := by decide
 
+/-! ### round 6c: the remaining clamp / link kinds of C17's model as instances ("on their constraints" without
+a hypothesis on the clamp function for these kinds). Parameters are vectors `List Rat`; facts about C17's model are
+proved in `Lemmas/C13C17.lean` from `Model/C17.lean` / `Lemmas/C17*.lean` (no `Props` import). -/
+
+/-- the clamped point of a rest state is its clamp function at the held parameters -/
+theorem rest_clamped {cfg : Cfg P Prm} {n : Nat} {st : St P Prm} (hr : Rest cfg n st) {j idx : Nat}
+    (hj : cfg.clampIdx[j]? = some idx) : ∃ p, st.prm[j]? = some p ∧ st.pts[idx]? = some (cfg.pos j p) := by
+  obtain ⟨p, hp⟩ := hr.prm_some hj
+  exact ⟨p, hp, (hr.2.2 j idx p hj hp).1⟩
+
+/-- **On the plane** (`PlaneClamp`; also a plane `ParametricSurfaceClamp`, `C17.surfPlane`). -/
+theorem T_C13_on_plane {cfg : Cfg V3 (List Rat)} {n : Nat} {st : St V3 (List Rat)} (hr : Rest cfg n st) {j idx : Nat}
+    (hj : cfg.clampIdx[j]? = some idx) (point nrm u v : V3) (hu : V3.dot u nrm = 0) (hv : V3.dot v nrm = 0)
+    (hpos : cfg.pos j = (fun p => C17.planeClamp point u v (p.getD 0 0) (p.getD 1 0)) ∨
+      cfg.pos j = (fun p => C17.surfPlane point u v (p.getD 0 0) (p.getD 1 0))) :
+    ∃ x, st.pts[idx]? = some x ∧ V3.dot (x - point) nrm = 0 := by
+  obtain ⟨p, _, hx⟩ := rest_clamped hr hj
+  rcases hpos with h | h <;> rw [h] at hx
+  · exact ⟨_, hx, (c17_plane_on point nrm u v _ _ hu hv).1⟩
+  · exact ⟨_, hx, (c17_plane_on point nrm u v _ _ hu hv).2⟩
+
+/-- **On the curve** (`CurveClamp` on a `LineCurve`): collinear with the curve's end points. -/
+theorem T_C13_on_curve_line {cfg : Cfg V3 (List Rat)} {n : Nat} {st : St V3 (List Rat)} (hr : Rest cfg n st) {j idx : Nat}
+    (hj : cfg.clampIdx[j]? = some idx) (p1 p2 : V3) (hpos : cfg.pos j = fun p => C17.curveLine p1 p2 (p.getD 0 0)) :
+    ∃ x, st.pts[idx]? = some x ∧ V3.cross (x - p1) (p2 - p1) = V3.zero := by
+  obtain ⟨p, _, hx⟩ := rest_clamped hr hj
+  rw [hpos] at hx
+  exact ⟨_, hx, c17_curveLine_on p1 p2 _⟩
+
+/-- **On the polyline** (`CurveClamp` on a `LinearInterpolatedCurve`, knots `ks` with increasing parameters): when
+    the held parameter is inside the knot range (outside it the library's curve raises and the step is skipped —
+    the guard of the totalised `getD`), the clamped point lies on the segment between two consecutive knots. -/
+theorem T_C13_on_polyline {cfg : Cfg V3 (List Rat)} {n : Nat} {st : St V3 (List Rat)} (hr : Rest cfg n st) {j idx : Nat}
+    (hj : cfg.clampIdx[j]? = some idx) (ks : List (Rat × V3)) (hk : C17.knotsOk ks = true) (dflt : V3)
+    (hpos : cfg.pos j = fun p => (C17.polyEval ks (p.getD 0 0)).getD dflt)
+    (hin : ∀ p, st.prm[j]? = some p → (C17.polyEval ks (p.getD 0 0)).isSome) :
+    ∃ x a b lam, st.pts[idx]? = some x ∧ (a, b) ∈ ks.zip ks.tail ∧ 0 ≤ lam ∧ lam ≤ 1 ∧
+      x = a.2 + V3.smul lam (b.2 - a.2) := by
+  obtain ⟨p, hp, hx⟩ := rest_clamped hr hj
+  rw [hpos] at hx
+  obtain ⟨y, hy⟩ := Option.isSome_iff_exists.mp (hin p hp)
+  simp only [hy, Option.getD_some] at hx
+  obtain ⟨a, b, lam, hab, h0, h1, _, _, hxy, _⟩ := C17.polyEval_on_segment ks _ y hk hy
+  exact ⟨y, a, b, lam, hx, hab, h0, h1, hxy⟩
+
+/-- **On the circle** (`RadialClamp`: the creation point turned about the axis by a quaternion `(w p, μ p · n)` that
+    depends on the parameter): height along the axis and distance from the centre are those of the creation point. -/
+theorem T_C13_on_radial {cfg : Cfg V3 (List Rat)} {n : Nat} {st : St V3 (List Rat)} (hr : Rest cfg n st) {j idx : Nat}
+    (hj : cfg.clampIdx[j]? = some idx) (center nrm initial : V3) (w mu : List Rat → Rat)
+    (hN : ∀ p, w p * w p + V3.dot (V3.smul (mu p) nrm) (V3.smul (mu p) nrm) ≠ 0)
+    (hpos : cfg.pos j = fun p => C17.radialClamp center nrm (w p) (mu p) initial) :
+    ∃ x p, st.pts[idx]? = some x ∧ st.prm[j]? = some p ∧
+      V3.dot (x - center) (V3.smul (mu p) nrm) = V3.dot (initial - center) (V3.smul (mu p) nrm) ∧
+      V3.norm2 (x - center) = V3.norm2 (initial - center) := by
+  obtain ⟨p, hp, hx⟩ := rest_clamped hr hj
+  rw [hpos] at hx
+  obtain ⟨h1, h2⟩ := c17_rot_keeps (w p) (V3.smul (mu p) nrm) center initial (hN p)
+  exact ⟨_, p, hx, hp, h1, h2⟩
+
+/-- **Mirror kept** (`SymmetryLink`): the midpoint of leader and follower lies on the plane, the connecting vector
+    is parallel to the normal. -/
+theorem T_C13_links_symmetry {cfg : Cfg V3 (List Rat)} {n : Nat} {st : St V3 (List Rat)} (hr : Rest cfg n st) {j idx : Nat}
+    (hj : cfg.clampIdx[j]? = some idx) (l : Link) (hl : l ∈ cfg.links) (hlead : l.leader = idx) (nrm o : V3)
+    (hn : V3.dot nrm nrm ≠ 0) (hfn : cfg.linkFn l.lid = C17.symmetryLink nrm o) :
+    ∃ x y, st.pts[idx]? = some x ∧ st.pts[l.follower]? = some y ∧
+      V3.dot (V3.smul (1 / 2) (x + y) - o) nrm = 0 ∧ V3.cross (y - x) nrm = V3.zero := by
+  obtain ⟨x, hx, hy⟩ := T_C13_links hr hj l hl hlead
+  rw [hfn] at hy
+  obtain ⟨h1, h2⟩ := c17_symmetry nrm o x hn
+  exact ⟨x, _, hx, hy, h1, h2⟩
+
+/-- **Rotation kept** (`RotationLink`: the follower's creation point turned about the link's axis by the quaternion
+    of the leader's turn): the follower keeps its height along the axis and its distance from the axis origin. -/
+theorem T_C13_links_rotation {cfg : Cfg V3 (List Rat)} {n : Nat} {st : St V3 (List Rat)} (hr : Rest cfg n st) {j idx : Nat}
+    (hj : cfg.clampIdx[j]? = some idx) (l : Link) (hl : l ∈ cfg.links) (hlead : l.leader = idx) (a o f0 : V3)
+    (w mu : V3 → Rat) (hN : ∀ x, w x * w x + V3.dot (V3.smul (mu x) a) (V3.smul (mu x) a) ≠ 0)
+    (hfn : cfg.linkFn l.lid = fun x => C17.rotationLink (w x) (V3.smul (mu x) a) o f0) :
+    ∃ x y, st.pts[idx]? = some x ∧ st.pts[l.follower]? = some y ∧
+      V3.dot (y - o) (V3.smul (mu x) a) = V3.dot (f0 - o) (V3.smul (mu x) a) ∧ V3.norm2 (y - o) = V3.norm2 (f0 - o) := by
+  obtain ⟨x, hx, hy⟩ := T_C13_links hr hj l hl hlead
+  rw [hfn] at hy
+  obtain ⟨h1, h2⟩ := c17_rot_keeps (w x) (V3.smul (mu x) a) o f0 (hN x)
+  exact ⟨x, _, hx, hy, h1, h2⟩
+
+/-- non-vacuity: a rest state with a plane clamp (junction 0) leading a symmetry link to junction 1 -/
+def exCfgG : Cfg V3 (List Rat) :=
+  { clampIdx := [0], pos := fun _ p => C17.planeClamp ⟨0, 0, 0⟩ ⟨1, 0, 0⟩ ⟨0, 1, 0⟩ (p.getD 0 0) (p.getD 1 0),
+    links := [⟨0, 1, 0⟩], linkFn := fun _ => C17.symmetryLink ⟨1, 0, 0⟩ ⟨2, 0, 0⟩ }
+
+def exStG : St V3 (List Rat) := { pts := [⟨1, 3, 0⟩, ⟨3, 3, 0⟩], prm := [[1, 3]] }
+
+theorem T_C13_exG_rest : Rest exCfgG 2 exStG := by
+  refine ⟨rfl, rfl, fun j idx p hj hp => ?_⟩
+  match j with
+  | 0 =>
+      simp [exCfgG] at hj; subst hj
+      simp [exStG] at hp; subst hp
+      refine ⟨by decide +kernel, fun l hl => ?_⟩
+      simp [linksOf, exCfgG] at hl; subst hl; decide +kernel
+  | j + 1 => simp [exCfgG] at hj
+
+example : V3.dot (⟨1, 0, 0⟩ : V3) ⟨0, 0, 1⟩ = 0 ∧ V3.dot (⟨0, 1, 0⟩ : V3) ⟨0, 0, 1⟩ = 0 ∧
+    V3.dot (⟨1, 0, 0⟩ : V3) ⟨1, 0, 0⟩ ≠ 0 ∧ exCfgG.clampIdx[0]? = some 0 ∧
+    C17.knotsOk [(0, ⟨0, 0, 0⟩), (1, ⟨1, 0, 0⟩), (3, ⟨1, 2, 0⟩)] = true ∧
+    (C17.polyEval [(0, ⟨0, 0, 0⟩), (1, ⟨1, 0, 0⟩), (3, ⟨1, 2, 0⟩)] 2).isSome ∧
+    (2 : Rat) * 2 + V3.dot (V3.smul (1 / 2) (⟨1, 2, 2⟩ : V3)) (V3.smul (1 / 2) ⟨1, 2, 2⟩) ≠ 0 := by decide +kernel
+
+/-! ### round 6c: clamps and links added between `optimize()` calls -/
+
+/-- **Frame over a growing history.** Whatever is added between the calls: a point that is neither clamped nor
+    follower of a clamped leader in ANY of the configurations the calls ran with is unchanged at the end; within a
+    single call (one phase) only the points movable in that call's configuration change. No hypothesis. -/
+theorem T_C13_frame_phases [LinearOrder Q] [LinearOrder S] (o : Oracles P Q) (phases : List (Phase P Prm Q S))
+    (st : St P Prm) :
+    (runPhases o phases st).pts.length = st.pts.length ∧
+      ∀ k, (∀ ph ∈ phases, ¬ movable ph.cfg k) → (runPhases o phases st).pts[k]? = st.pts[k]? := by
+  induction phases generalizing st with
+  | nil => exact ⟨rfl, fun _ _ => rfl⟩
+  | cons ph rest ih =>
+      obtain ⟨h1, h2⟩ := T_C13_frame ph.cfg o ph.call.conv ph.call.maxIter ph.call.sched (ph.enter st)
+      obtain ⟨i1, i2⟩ := ih (optimize ph.cfg o ph.call.conv ph.call.maxIter ph.call.sched (ph.enter st)).st
+      refine ⟨by simp only [runPhases]; rw [i1, h1]; rfl, fun k hk => ?_⟩
+      simp only [runPhases]
+      rw [i2 k (fun p hp => hk p (List.mem_cons_of_mem _ hp)), h2 k (hk ph (List.mem_cons_self ..))]
+      rfl
+
+/-- **Quality over a growing history.** If every call is entered in a rest state of its (well-formed)
+    configuration — clamps added between the calls sit exactly on their vertex, as the constructors
+    `FreeClamp(v)`, `PlaneClamp(v, v, n)`, `LineClamp(v, v, v + d)` give — the grid quality after the last call is
+    defined and not larger than before the first. -/
+theorem T_C13_noworse_phases [LinearOrder Q] [LinearOrder S] {n : Nat} (o : Oracles P Q)
+    (phases : List (Phase P Prm Q S)) (st : St P Prm) (hok : PhasesOK n o phases st) (q0 : Q)
+    (hq : o.gq st.pts = some q0) : ∃ q, o.gq (runPhases o phases st).pts = some q ∧ q ≤ q0 := by
+  induction phases generalizing st q0 with
+  | nil => exact ⟨q0, hq, le_refl _⟩
+  | cons ph rest ih =>
+      obtain ⟨hwf, hr, hrest⟩ := hok
+      obtain ⟨q1, hq1, hle1⟩ := T_C13_noworse hwf o ph.call.conv ph.call.maxIter ph.call.sched (ph.enter st) hr q0 hq
+      obtain ⟨q, h2, h3⟩ := ih _ hrest q1 hq1
+      exact ⟨q, h2, le_trans h3 hle1⟩
+
+/-- non-vacuity: first a call with no clamp at all, then the clamp of `exCfg` is added (parameter 5 = the vertex'
+    position) and a second call moves vertex 1 and its follower -/
+def exCfg0 : Cfg Int Int := { clampIdx := [], pos := fun _ p => p, links := [⟨1, 2, 0⟩], linkFn := fun _ p => p + 10 }
+
+def exPhases : List (Phase Int Int Int Int) :=
+  [⟨exCfg0, fun _ => [], ⟨exConv, 2, exSched⟩⟩, ⟨exCfg, fun _ => [5], ⟨exConv, 2, exSched⟩⟩]
+
+example : (runPhases exO exPhases ⟨[0, 5, 15], []⟩).pts = [0, 2, 12] ∧
+    (optimize exCfg0 exO exConv 2 exSched ⟨[0, 5, 15], []⟩).st.pts = [0, 5, 15] ∧
+    (∀ ph ∈ exPhases, ¬ movable ph.cfg 0) := by
+  refine ⟨by decide, by decide, ?_⟩
+  intro ph hph
+  simp only [exPhases, List.mem_cons, List.not_mem_nil, or_false] at hph
+  rcases hph with rfl | rfl <;> (unfold movable; decide)
+
+example : PhasesOK 3 exO exPhases ⟨[0, 5, 15], []⟩ := by
+  have e : (optimize exCfg0 exO exConv 2 exSched ⟨[0, 5, 15], []⟩).st.pts = [0, 5, 15] := by decide
+  refine ⟨⟨by decide, by decide, by decide, by decide, by decide⟩, ⟨rfl, rfl, fun j idx p hj _ => ?_⟩, ?_⟩
+  · simp [exCfg0] at hj
+  · refine ⟨T_C13_ex_wf, ?_, trivial⟩
+    show Rest exCfg 3 ⟨(optimize exCfg0 exO exConv 2 exSched ⟨[0, 5, 15], []⟩).st.pts, [5]⟩
+    rw [e]
+    exact T_C13_ex_rest
+
 end CBV.C13
